@@ -743,6 +743,30 @@ pub fn random_image(rng: &mut Rng, max_extent: u32) -> Image {
             RenderAssetUsages::MAIN_WORLD | RenderAssetUsages::RENDER_WORLD,
         );
     }
+    if rng.chance(1, 8) {
+        // images a conforming peer can hold and publish whose byte length is NOT extent x texel size: a mip
+        // chain behind the base level, a block-compressed format, a format without a texel size. (Built
+        // field by field: Image::new debug-asserts the plain case.) They must travel unchanged and decoding
+        // them must not panic (C08); C13's own premise covers only the plain case.
+        let (format, w, h, n) = match rng.below(4) {
+            0 => {
+                let w = 1 << rng.range(1, 3) as u32;
+                (TextureFormat::Rgba8Unorm, w, w, (w * w * 4 + (w / 2) * (w / 2) * 4 + 4) as usize)
+            }
+            1 => {
+                let k = rng.range(1, 3) as u32;
+                (TextureFormat::Bc7RgbaUnorm, 4 * k, 4 * k, (16 * k * k) as usize)
+            }
+            2 => (TextureFormat::Bc1RgbaUnormSrgb, 8, 4, 16),
+            _ => (*rng.pick(&[TextureFormat::Depth24Plus, TextureFormat::Depth24PlusStencil8]), 2, 2, rng.below(20) as usize),
+        };
+        let mut image = Image::default();
+        image.data = payload(rng, n);
+        image.texture_descriptor.dimension = TextureDimension::D2;
+        image.texture_descriptor.size = Extent3d { width: w, height: h, depth_or_array_layers: 1 };
+        image.texture_descriptor.format = format;
+        return image;
+    }
     if rng.chance(1, 12) {
         // one extent beyond 16 bit (a CPU-side image may be larger than any GPU limit): a thin line or strip
         let format = *rng.pick(&[TextureFormat::R8Unorm, TextureFormat::R8Uint, TextureFormat::Rg8Unorm]);
@@ -832,12 +856,15 @@ pub fn image_cases(seed: u64, count: usize, max_extent: u32) -> String {
             }
             Some(bin) => {
                 let _ = writeln!(out, "IMGBIN {} {}", i, hx(&bin));
-                match bin_to_image(&bin) {
-                    None => {
+                match std::panic::catch_unwind(|| bin_to_image(&bin)) {
+                    Ok(None) => {
                         let _ = writeln!(out, "IMGDEC {} NONE", i);
                     }
-                    Some(dec) => {
+                    Ok(Some(dec)) => {
                         let _ = writeln!(out, "IMGDEC {} {}", i, image_fields(&dec));
+                    }
+                    Err(_) => {
+                        let _ = writeln!(out, "IMGDEC {} PANIC", i);
                     }
                 }
                 if rng.chance(1, 3) && !bin.is_empty() {
